@@ -21,7 +21,13 @@
 (***************************************************************************)
 EXTENDS Integers, Sequences, FiniteSets, TLC
 
-CONSTANTS TMax, EMax, Racy
+CONSTANTS TMax, EMax, Racy,
+          Representatives   \* BOOLEAN: edges take one z-class pair per case of the sign test instead of all nine
+
+\* z-classes <<end 0, end 1>> an edge may have
+AllPairs == { -1, 0, 1 } \X { -1, 0, 1 }
+RepPairs == { << -1, 1 >>, << 1, -1 >>, << 0, 1 >>, << -1, 0 >>, << 0, 0 >>, << 1, 1 >> }
+SignPairs == IF Representatives THEN RepPairs ELSE AllPairs
 
 VARIABLES tn, en,       \* number of threads / edges of this run
           s0, s1,       \* z-class of the two end nodes of every edge relative to the parallel
@@ -36,8 +42,10 @@ Threads == 1..tn
 Pad(f, n) == [ i \in 1..EMax |-> IF i <= n THEN f[i] ELSE 0 ]
 
 Init == /\ tn \in 1..TMax /\ en \in 1..EMax
-        /\ \E a \in [1..en -> {-1, 0, 1}], b \in [1..en -> {-1, 0, 1}], o \in [1..en -> 1..tn] :
-              s0 = Pad(a, en) /\ s1 = Pad(b, en) /\ owner = Pad(o, en)
+        /\ \E ab \in [1..en -> SignPairs], o \in [1..en -> 1..tn] :
+              /\ s0 = Pad([ e \in 1..en |-> ab[e][1] ], en)
+              /\ s1 = Pad([ e \in 1..en |-> ab[e][2] ], en)
+              /\ owner = Pad(o, en)
         /\ cur = [ t \in 1..TMax |-> 0 ] /\ st = [ t \in 1..TMax |-> "idle" ]
         /\ flag = [ t \in 1..TMax |-> FALSE ] /\ loc = [ t \in 1..TMax |-> 0 ]
         /\ mask = [ i \in 1..EMax |-> 0 ]
